@@ -339,6 +339,59 @@ def run_files(arg):
         shutil.rmtree(tmp, ignore_errors=True)
 
 
+def run_multifile(fmt):
+    """several files of one format given to one network: every way the API offers of saying so (a list of formats,
+    ONE format string for the whole list, files added one after the other) holds the data lines of all files, in
+    file order and decoded as they are alone"""
+    from ..harness.render import reset_globals, scratch, quiet
+
+    reset_globals()
+    from naunet.network import Network
+
+    ref = gen_cases(fmt, "quick")
+    picks = [ref[0], ref[5], ref[9]]
+    kw = {"species_kwargs": {"surface_prefix": "G"}} if fmt == "leeds" else {}
+    pre = (file_items("krome")["FORMAT"] + "\n") if fmt == "krome" else ""
+    tmp = Path(tempfile.mkdtemp(dir=scratch()))
+    viols = []
+    n = 0
+    try:
+        for nfiles in (2, 3):
+            paths = []
+            for i in range(nfiles):
+                f = tmp / f"m{i}.{fmt}"
+                f.write_text(pre + picks[i][2] + "\n" + (picks[(i + 1) % 3][2] + "\n" if i == 0 else ""))
+                paths.append(str(f))
+            want = [picks[0], picks[1]] + [picks[i] for i in range(1, nfiles)]
+            for how in ("format-list", "one-format-string", "added-one-by-one"):
+                case = {"fmt": fmt, "multifile": nfiles, "how": how}
+                n += 1
+                try:
+                    with quiet():
+                        if how == "format-list":
+                            net = Network(filelist=paths, fileformats=[fmt] * nfiles, **kw)
+                        elif how == "one-format-string":
+                            net = Network(filelist=paths, fileformats=fmt, **kw)
+                        else:
+                            net = Network(filelist=paths[0], fileformats=fmt, **kw)
+                            for p_ in paths[1:]:
+                                net.add_reaction_from_file(p_, fmt)
+                except Exception as e:
+                    viols.append((f"C07:multifile:{fmt}:{how}:raises", f"{nfiles} {fmt} files ({how}) raise {e!r}", case))
+                    continue
+                if len(net.reaction_list) != len(want):
+                    viols.append((f"C07:multifile:{fmt}:{how}:count", f"{nfiles} {fmt} files ({how}) hold {len(want)} data lines, the network holds {len(net.reaction_list)} reactions", case))
+                    continue
+                for (ar_, exp_, line_), r in zip(want, net.reaction_list):
+                    bad = compare(fmt, exp_, observe(r))
+                    if bad:
+                        viols.append((f"C07:multifile:{fmt}:{how}:decoding", f"{nfiles} {fmt} files ({how}): a data line is decoded differently (or out of order): fields {bad}", case))
+                        break
+        return n, viols
+    finally:
+        shutil.rmtree(tmp, ignore_errors=True)
+
+
 FORMATS = ["kida", "umist", "leeds", "uclchem", "naunet", "krome"]
 
 # ---- KROME: the column layout is data (the @format directive), so it is enumerated too ---------
@@ -549,6 +602,9 @@ def run(ctx):
     for fmt, n, viols in ctx.pmap(run_files, work):
         nf += n
         ctx.absorb(viols)
+    for n, viols in ctx.pmap(run_multifile, FORMATS):
+        nf += n
+        ctx.absorb(viols)
     umist_multirange(ctx)
     (nk, nkc, viols), = list(ctx.pmap(run_krome_formats, [ctx.tier]))
     ctx.absorb(viols)
@@ -558,6 +614,7 @@ def run(ctx):
     nc += num
     ctx.assumptions += [
         "KROME @format directives: keys are case-insensitive (KROME's own reader lower-cases them); a directive governs the lines after it until the next directive; temperature limits may carry KROME's operator prefixes (>, <, .GE., .LT. ...) and Fortran d-exponents; a missing idx column leaves the index at -1, missing Tmin/Tmax columns leave the window open",
+        "several files for one network: a list of formats, one format string for the whole list (the signature allows `str | list[str]`) and add_reaction_from_file must each hold every data line of every file in order",
         "lines are produced by my own per-format encoders (mc/ref/formats.py) following the published column layouts; the expected values are the abstract reaction that was encoded (after the format's own printed rounding)",
         "type codes expected: own transcription of the KIDA / RATE12 / Walsh+2015 / UCLCHEM tables; Leeds types 15-19 define no type and are not judged on it",
         "KROME lines carry no type; their rate text is C12's subject",
@@ -577,6 +634,9 @@ def run(ctx):
 
 
 def replay(ctx, case):
+    if "multifile" in case:
+        ctx.absorb(run_multifile(case["fmt"])[1])
+        return
     fmt = case["fmt"]
     if case.get("multirange"):
         umist_multirange(ctx)
